@@ -5,7 +5,7 @@ ID = "C28"
 HARNESS_PKG = "h_net_a"
 HARNESS_ARGS = ["c28"]
 COQ_IMPORTS = "From PV Require Import Model.Backoff Oracle.C28."
-COQ_SHARD = 150
+COQ_SHARD = 40
 TECHNIQUE = ("Coq proof (invariant initial <= value <= max over arbitrary operation sequences and an arbitrary random generator; "
              "step lemmas for the reset interval) + differential correspondence of the Gallina model, including rand's uniform "
              "sampler on the seed's ChaCha20 stream, with the real Backoff driven through cfg-gated hooks")
@@ -27,9 +27,9 @@ ASSUMPTIONS = ["configuration durations are whole milliseconds below 2^64 ms; Du
                "real time spent inside one case is far below one second (the clock is shifted, not frozen)"]
 TRUSTED = ["modelled not verified: rand's uniform u128 sampler (Canon's method) and ChaCha20 (python implementation feeds the model the key stream)",
            "hook Backoff::verif_shift_clock moves last_reset_at back by d: equivalent to d passing for `elapsed()`"]
-RULE = ("quick: ~450 cases: default configuration with random seeds and operation sequences (length <= 60; increments dominate; time advances "
+RULE = ("quick: ~370 cases: default configuration with random seeds and operation sequences (length <= 60; increments dominate; time advances "
         "0..250 s; deadline-relative advances at -60 s..-1 s and 0..+60 s; resets), custom configurations (deterministic step and interval, "
-        "initial = max, initial > 0, tiny and huge ranges, zero reset interval), construction panics; thorough: ~4000 cases, length <= 300. "
+        "initial = max, initial > 0, tiny and huge ranges, zero reset interval), construction panics; thorough: ~3000 cases, length <= 300. "
         "non-trivial = at least 3 increments and (the maximum is reached or a reset by elapsed interval happens)")
 
 DEFAULT = [0, 1000, 5000, 30000, 60000, 180000]
@@ -111,7 +111,7 @@ def _custom(rng):
 
 
 def gen(tier, rng):
-    n = 450 if tier == "quick" else 4000
+    n = 360 if tier == "quick" else 3000
     lmax = 60 if tier == "quick" else 300
     for i in range(n):
         seed = [rng.randrange(256) for _ in range(32)]
@@ -165,7 +165,9 @@ def _opl(case):
 
 
 def coq_model(case):
-    ndraws = 2 + sum(1 for o in case["ops"] if o[0] in ("I", "R")) * 2
+    # one draw in new(), at most two per increment (step + reset interval), one per reset; a draw
+    # takes two u64 words (four if the sampler retries, which needs a range near 2^128)
+    ndraws = 1 + sum(2 if o[0] == "I" else 1 for o in case["ops"] if o[0] in ("I", "R"))
     words = chacha20_words64(case["seed"], 2 * ndraws + 4)
     return "model_line (%s) [%s]%%N %s" % (_cfg(case), ";".join(str(w) for w in words), _opl(case))
 
